@@ -355,6 +355,12 @@ class StreamIO:
         """
         self.writer.transport.abort()
 
+    def is_gone(self):
+        """
+        Closed, and nothing of the buffered data is left to be sent.
+        """
+        return self.writer.transport.is_closing() and not self._unsent()
+
     def give_up(self):
         """
         Close connection, but do not wait for a peer which has not taken
